@@ -22,7 +22,7 @@ import (
 
 func Main() {
 	mc.Main("C09", "model_checking",
-		"volume TTL none|1h|1d (quick: none|1h) x needle TTL inherited|1h|1d x client LastModified write-time|-2h|+2h x all sequences of <= n (quick 2, thorough 3; thorough also: volume loaded 90 min before the write with <= 2) (advance 0|80|1260 min, action read|Compact+Commit|Compact2+Commit|heartbeat) on a real Store volume; oracle: readable iff age < needle TTL, whatever happened before; filer clause: every second count in [1,400000] plus unit boundaries through SecondsToTTL/ReadTTL and StorageOption.ToAssignRequests",
+		"volume TTL none|1h|1d (quick: none|1h) x needle TTL inherited|1h|1d x client LastModified write-time|-2h|+2h x all sequences of <= n (quick 2, thorough 3; thorough also: empty volume reloaded 90 min before the write, with <= 2) (advance 0|80|1260 min, action read|Compact+Commit|Compact2+Commit|heartbeat) on a real Store volume; oracle: readable iff age < needle TTL, whatever happened before; filer clause: every second count in [1,400000] plus unit boundaries through SecondsToTTL/ReadTTL and StorageOption.ToAssignRequests",
 		run)
 }
 
@@ -171,13 +171,26 @@ func shift(e *volkit.Env, vid needle.VolumeId, min int) {
 	}
 	d := int64(min) * 60
 	volkit.ShiftPast(e.Base(vid)+".dat", d)
-	v.VolumeGroupSetLastModifiedV(uint64(int64(v.VolumeGroupLastModifiedV()) - d))
+	if lm := v.VolumeGroupLastModifiedV(); lm != 0 { // 0 = never set (freshly created, nothing written)
+		v.VolumeGroupSetLastModifiedV(uint64(int64(lm) - d))
+	}
 }
 
 func runCase(e *volkit.Env, c Case) (trace []string, vs []verdict) {
 	vid := e.NewVolume(c.VolTTL)
 	defer e.Drop(vid)
-	shift(e, vid, c.PreAge) // the (empty) volume has been sitting there for PreAge minutes
+	if c.PreAge > 0 {
+		// the (empty) volume was created earlier and the server restarted PreAge minutes
+		// ago: loading takes the data file's mtime as the volume's last-modified second
+		e.Unload(vid)
+		t := time.Now().Add(-time.Duration(c.PreAge) * time.Minute)
+		if err := os.Chtimes(e.Base(vid)+".dat", t, t); err != nil {
+			mc.Fatal("chtimes: %v", err)
+		}
+		if err := e.Load(vid); err != nil {
+			mc.Fatal("reload of the empty volume: %v", err)
+		}
+	}
 	now := time.Now().Unix()
 	b := volkit.Blob{Data: []byte("ttl-data"), Name: "t", Mime: "x/y", HTTPLike: true, Ttl: c.NeedleTTL,
 		LastModified: uint64(now + int64(c.LMOffset)*60)}
